@@ -33,6 +33,91 @@ def reencode(prog, row, token):
     return m, res
 
 
+INT_FAMILY = {'U8', 'U16', 'U32', 'U64', 'I8', 'I16', 'I32', 'I64', 'Int'}
+
+
+def family(vn):
+    return INT_FAMILY if vn in INT_FAMILY else {vn}
+
+
+def converse(ctx, prog, rows, where):
+    """T-TOKEN.converse: every token variant, encoded with a symbolic payload, starts with an initial byte that tokenises
+    back to the same variant (integer variants: to an integer variant).  Together with T-TOKEN (re-encoding a decoded token
+    gives the same bytes) and the injectivity of the head tables (C03) this is value equality of the round trip
+    encode -> tokenise; what it adds to T-TOKEN is that no two different variants are written to the same bytes."""
+    ctx.rules_run.append('T-TOKEN.converse: Token::encode of every variant (symbolic payload) emits an initial byte on which Token::decode yields a value-compatible variant')
+    from ..absint import iv_and, iv_norm
+    fwd = []     # (initial-byte set, variant) of the successful tokenisation cells
+    for r in rows:
+        if r.kind != 'return' or r.result != 'Ok':
+            continue
+        vn = variant_name(prog, r.raw.fields[0])
+        for d in acc.decomp(r):
+            fwd.append((d['part'], vn))
+    adname = TOKEN.split('<')[0]
+    ad = prog.adts[adname]
+    inst = prog.one(TENC)
+    if inst is None:
+        ctx.fail_closed('T-TOKEN.converse', 'Token::encode not found')
+        return
+    tokty = {'s': TOKEN, 'adt': adname, 'args': ["'b"], 'k': 'adt'}
+    nvar = 0
+    for vi, v in enumerate(ad['variants']):
+        vn = v['name']
+        if vn == 'F16' and not prog.feature('half'):
+            continue
+        m = l1.encoder_machine(prog)
+        st = State()
+        tok = m.make_variant(st, tokty, ad, vi, 'tok')
+        st.mem[('arg', 'tok')] = tok
+        st.mem[('arg', 'enc')] = Atom('encoder')
+        st.mem[('arg', 'ctx')] = Atom('ctx')
+        try:
+            outs = m.run(inst, [Ref(('arg', 'tok')), Ref(('arg', 'enc'), (), True), Ref(('arg', 'ctx'), (), True)], st)
+        except Abort as e:
+            ctx.fail_closed('T-TOKEN.converse', 'Token::encode cannot be summarised for %s: %s' % (vn, e))
+            continue
+        nvar += 1
+        nok = 0
+        for o in outs:
+            if o.kind != 'return' or l1.result_kind(o.value) != 'Ok':
+                continue
+            stream = tables.flatten_puts(o.st.events)
+            if not stream or not isinstance(stream[0], Int):
+                ctx.violation('T-TOKEN.converse', vn + '|head', 'encoding %s writes no recognisable initial byte (%s)' % (vn, tables.fmt_stream(stream)), where)
+                continue
+            nok += 1
+            h = stream[0]
+            if h.is_const():
+                ibs = ((h.c, h.c),)
+            else:
+                sg = h.single()
+                if not sg or sg[1] != 1:
+                    lo, hi = m.rng(o.st, h)
+                    ibs = ((lo, hi),)
+                else:
+                    ibs = tuple((a + sg[2], b + sg[2]) for a, b in o.st.ranges[sg[0]])
+            got = {}
+            covered = ()
+            for part, fv in fwd:
+                x = iv_and(part, ibs)
+                if x:
+                    got.setdefault(fv, []).extend(x)
+                    covered = iv_norm(covered + tuple(x))
+            bad = {fv: iv_norm(tuple(x)) for fv, x in got.items() if fv not in family(vn)}
+            key = '%s|%s' % (vn, iv_str(ibs))
+            if bad:
+                for fv, x in sorted(bad.items()):
+                    ctx.violation('T-TOKEN.converse', '%s|as=%s' % (vn, fv), 'token %s (%s) is written with initial byte %s, which tokenises as %s: the token does not survive encoding' % (vn, l1.fmt_cell(o.st), iv_str(x), fv), where)
+            elif iv_norm(covered) != iv_norm(ibs):
+                ctx.violation('T-TOKEN.converse', key + '|untokenisable', 'token %s is written with initial byte %s, part of which no successful tokenisation path accepts (accepted: %s)' % (vn, iv_str(ibs), iv_str(covered) if covered else '-'), where)
+            else:
+                ctx.ok('T-TOKEN.converse', key)
+        if not nok:
+            ctx.violation('T-TOKEN.converse', vn + '|refused', 'encoding %s never succeeds' % vn, where)
+    ctx.floor('T-TOKEN.converse', 'variants', nvar, 25 + (1 if prog.feature('half') else 0))
+
+
 def run(ctx):
     prog = load.program('core-full')
     ctx.rules_run.append('T-TOKEN: for every cell of Token::decode the token is re-encoded by abstract interpretation of Token::encode: the bytes are the preferred serialisation of the same head (identical for preferred input); >= 1 byte per token')
@@ -151,6 +236,7 @@ def run(ctx):
                     ctx.violation('T-TOKEN', key + '|bytes', 'head %s (argument %s) tokenises to %s and re-encodes as %s; the preferred serialisation of that item is %s'
                                   % (iv_str(part), iv_str(d['argset']) if d['argset'] else '-', vn, tables.fmt_stream(stream), tables.fmt_stream(exp)), where)
     ctx.floor('T-TOKEN', 'cells', n, 50)
+    converse(ctx, prog, rows, where)
     missing = set(v['name'] for v in prog.adts[TOKEN.split('<')[0]]['variants']) - seen_variants
     if missing:
         ctx.violation('T-TOKEN', 'variants', 'no input byte produces the token variant(s) %s' % sorted(missing), where)
